@@ -394,13 +394,15 @@ def run_unit(unit, ctx):
                 kind = problems[0][0]
                 okey = "problem:" + kind
                 outcomes[okey] = outcomes.get(okey, 0) + 1
-                mk = (kind, tuple((tuple(e.path), e.validator, err_class(e, d, X)) for e in seq), json.dumps(X))
+                mk = (kind, tuple((tuple(e.path), e.validator, err_class(e, d, X), repr(e.instance)) for e in seq), xkey)
                 hit = memo.get(mk)
                 if hit is None:
                     small = shrink_order(seq, lambda c: Trie(c, X), kind)
                     pr = check_order(small, Trie(small, X))
-                    hit = memo[mk] = (signature(kind, small, pr[0], d, X), [ekey(e) for e in small], pr[:3])
-                sig, order_keys, pr = hit
+                    kept = [i for i, e in enumerate(seq) if any(e is k for k in small)]
+                    hit = memo[mk] = (signature(kind, small, pr[0], d, X), kept, pr[:3])
+                sig, kept, pr = hit                     # positions are valid for every sequence with this key
+                order_keys = [ekey(seq[i]) for i in kept]
                 case = {"draft": d, "schema": S, "instance": X, "order": order_keys}
                 size = len(json.dumps(S)) + len(json.dumps(X)) + 10 * len(order_keys)
                 slot = found.get(sig)
